@@ -146,7 +146,14 @@ PROPS = {
         "rule": "random manager histories (1..80 ops over Add/AddNewKeyFromParameters/AddKey/AddKeyWithOpts/SetPrimary/"
                 "Enable/Disable/Delete/Handle/NewManagerFromHandle, ids biased to live/deleted/colliding/boundary values, "
                 "forced random-id collisions through the crypto/rand tape); after every op the manager's entries and "
-                "unavailable-id set are compared with the Lean model, earlier handles are re-inspected; a case is "
+                "unavailable-id set are compared with the Lean model, earlier handles are re-inspected; histories also "
+                "contain SetAnnotations (nil/empty/fresh/re-used caller maps, maps read from earlier handles) and caller-side "
+                "mutation of maps after they were passed in (`M setann`/`M annmut`, handle annotations compared with the "
+                "driver's `M hann`); EVERY handle obtained in a history (history Handle() results, the oracle's per-op "
+                "handles, reader handles) is snapshotted and re-observed after EVERY later op of any manager (entries, ids, "
+                "statuses, primary, key objects and serialized material, KeysetInfo, annotations), and a recording "
+                "monitoring client checks that contexts handed out never change and that primitives/key exports of earlier "
+                "handles log under the handle's own snapshot (annotations, primary, enabled ids); a case is "
                 "non-trivial if it is a state-changing or failing op (not a bare dump of ≤1 entries); distinct by op-line hash",
         "trusted_base": [KERNEL, TIE, "key generation/parsing is opaque to the model (only success/failure enters)"],
         "assumptions": ["model Manager.lean is tied to keyset/manager.go by differential execution, not by translation"],
@@ -316,7 +323,16 @@ PROPS["C14"] = {
             "New*Key constructors; public-only handles are used with well-formed inputs (verifiers: what the untouched private twin "
             "signs + random strings of every signature length under every prefix; encrypters: ciphertext opened by the private twin; "
             "JWT verifiers likewise): an untouched key must accept its twin, a wrong-length key that is accepted must give a working "
-            "primitive, nothing may panic; non-trivial = keysets with ≥1 key, distinct by line hash",
+            "primitive, nothing may panic; structured public/private mismatches of every asymmetric pool key (each single field taken "
+            "from a second valid key and the converse; NIST curves incl. HPKE and composite: negated point, n−d, 2Q, Q±G, d±1, 2d, d+n, "
+            "x+p, y+p, d∈{0,n}, compressed point; X25519/Ed25519: top/sign bit, small-order points, clamping aliases; RSA: p↔q with and "
+            "without CRT values, d+λ, d+φ, dp+(p−1), crt+p, d for another e) with still-matching rewrites as controls — an accepted one "
+            "must verify/open under its own public half; keysets of 15…70 keys (…257 in thorough; sizes around 16/32/64/128/256) with a "
+            "repeated id at first/middle/last and threshold positions under all 9 status pairs and every primary placement, three "
+            "occurrences, and one structural fault (unknown status/prefix, nil KeyData, disabled/destroyed/missing primary) at each chosen "
+            "position, which must be rejected by every reader; NIST-curve keys in foreign integer encodings (1–3 leading zero bytes "
+            "stripped, fixed, over-long; kslib.ECShortCases) whose accepted forms must be the same key as the canonical encoding; "
+            "non-trivial = keysets with ≥1 key, distinct by line hash",
     "trusted_base": [KERNEL, TIE, "per-type key parsers are an oracle bit of the model (parseOk); the harness obtains it from "
                      "protoserialization.ParseKey"],
     "assumptions": ["'never a panic' on the real code is explored (recover around every call), not proved; the theorem covers the structural gate"],
@@ -343,7 +359,16 @@ PROPS["C13"] = {
     "rule": "keysets of every key type with the secret key at each position, mixed public/secret, unknown material enum values and type "
             "URLs; NewHandleWithNoSecrets / ReadWithNoSecrets / WriteWithNoSecrets decisions vs the model; every String(), KeysetInfo() "
             "and written encrypted keyset is scanned for ≥8-byte substrings of any secret key material; encrypted keysets re-read with "
-            "wrong key / wrong associated data / truncated ciphertext; non-trivial = keysets with ≥1 key, distinct by line hash",
+            "wrong key / wrong associated data / truncated ciphertext; large keysets: 63..300 keys (thorough: up to 65537) with one secret "
+            "key of every kind and status at early, late (≥64, ≥128, ≥256) and, for some sizes, every position, Public() of that many "
+            "private keys; serializations padded to exact sizes around 64 KiB, 128 KiB, 1 MiB, 1.5 MiB (thorough: up to 32 MiB; many "
+            "ML-DSA / small public keys or one giant padding key) written and read back through the no-secret, cleartext and encrypted "
+            "binary / JSON / memory paths with equal keys, a secret key first / in the middle / behind 64 KiB or 1 MiB / right behind a "
+            "key that ends exactly at byte 65535..65537 or 1 MiB±1; NIST-curve keys (ECDSA, JWT-ECDSA, ECIES; P-256/384/521) whose x, y "
+            "or d has 1, 2, 3 leading zero bytes in foreign encodings (minimal, partially stripped, fixed, over-long, "
+            "BigInteger.toByteArray) must be accepted by the no-secret gates resp. read from an encrypted keyset and be Equal to the "
+            "key in tink-go's own encoding, non-zero extra leading bytes must be refused; "
+            "non-trivial = keysets with ≥1 key, distinct by line hash",
     "trusted_base": [KERNEL, TIE],
     "assumptions": ["confidentiality of the AEAD ciphertext of an encrypted keyset is cryptographic",
                     "the substring scan is a search aid, not the proof; the proof is the gate theorem over all positions"],
@@ -519,7 +544,14 @@ PROPS["C16"] = {
             "through export hooks on random and boundary inputs; contexts of 256, 257, 511 and 512 bytes are refused by Sign, "
             "SignDeterministic (all sets) and by Verify also when the signature is crafted to be genuine for each encoding a missing "
             "length check could build (length byte wrapped / saturated, context cut to 255 or to the wrapped length, empty context over "
-            "ctx|M; f-sets quick, all sets thorough), the 255-byte context round-trips; non-trivial = every line, distinct by line hash",
+            "ctx|M; f-sets quick, all sets thorough), the 255-byte context round-trips; LARGE MESSAGES (lengths k*2^16+d around 65536 "
+            "and 131072 incl. exactly 65533..65537, 100000, and the lengths where M' = 0|len(ctx)|ctx|M crosses 2^16 / 2^17 for contexts of "
+            "0, 1, 255 bytes; 3*2^16, 1 MiB, 1 MiB+1 thorough; messages as @len:seed tokens): R = PRF_msg, digest = H_msg, its split and the "
+            "FORS indices as computed inside signInternal / verifyInternal vs the reference for all three hash families at every size (all "
+            "twelve sets), Sign / SignDeterministic / signInternal signatures verify in the reference and are byte-identical to its own "
+            "(f-sets quick, all sets thorough), flipped message bytes (first, last, positions 65535/65536 of M and M'), message length "
+            "±1 / ±2^16 and signatures crafted to be genuine only under a wrong digest (H_msg without PK.root, over M' cut to 65535 or to "
+            "len mod 2^16 bytes, signature of the cut M') are rejected by both; non-trivial = every line, distinct by line hash",
     "trusted_base": [KERNEL, TIE, PRIMS],
     "assumptions": ["hashes are reference primitives; the FIPS 205 reference (Prim/Slhdsa.lean) is validated by the repo's KAT vectors "
                     "and agreement with Go on 3300 cross-check lines, not proved",
@@ -592,7 +624,13 @@ PROPS["C12"] = {
             "byte-identically (canonical form) and the field dump is compared with the key's accessors; the same for parameters; "
             "keysets through every writer/reader pair (binary, JSON, mem; cleartext, encrypted under several AEADs and associated data, "
             "public-only): ids, statuses, primary, order compared, primitives of original and re-read handle interoperate, Public() maps "
-            "private keys to matching public keys; non-trivial = every line, distinct by line hash",
+            "private keys to matching public keys; RSA off the standard size grid (stream 6, rsaodd.go): real private and public keys of "
+            "all four RSA families (RSA-SSA-PKCS1, RSA-SSA-PSS, JWT RS*, JWT PS*) whose modulus bit length is not a multiple of 8 "
+            "(2049, 2050, 2052, 2055, 2057, 2060; thorough also 2051, 2053, 2056, 2063, 2100, 3073, 3079, 4095) or whose primes have "
+            "different byte lengths (8k+1-bit moduli and their p<->q swap, hand-made 1040+1008-bit primes in both orders; thorough more "
+            "splits) go through all of the above: key and parameters/template round trips with wire dumps, the Lean big-integer model "
+            "lines on the real key's fields, and deterministic keysets through every writer/reader pair incl. Public() + "
+            "WriteWithNoSecrets/ReadWithNoSecrets and primitive interoperability; non-trivial = every line, distinct by line hash",
     "trusted_base": [KERNEL, TIE, "google.golang.org/protobuf (wire and JSON codecs) is the implementation under comparison for the "
                      "wire form; Equal and protobuf-JSON are exercised on the Go side only"],
     "assumptions": ["per-key-type field mappings are tied by correspondence over the constructor grid, not proved"],
@@ -617,7 +655,14 @@ PROPS["C17"] = {
             "Ed25519, AES-GCM-HKDF streaming) × variants × statuses × primary choice × PRF hash SHA256/SHA512 × PRF salts × key sizes; "
             "salts empty/short/1 KiB; the derived handle (ids, statuses, primary, prefix types, key bytes via insecure access) is compared "
             "with the Lean model (structure from the manager model, material from RFC 5869 over the reference hash); two derivations "
-            "compared for Equal; derived keys used as ordinary keys; non-trivial = every line, distinct by line hash",
+            "compared for Equal; derived keys used as ordinary keys; hand-written serialized deriver keysets (binary/JSON/in-memory/encrypted "
+            "readers) over the full grid (key entry prefix type × derived-key template prefix type, UNKNOWN/TINK/LEGACY/RAW/CRUNCHY/"
+            "WITH_ID_REQUIREMENT/out-of-range) × every derivable key type: acceptance vs the model (`V accept`: equal and legal for the type, "
+            "else rejected), accepted ones carry the ENTRY's id / prefix type / primary and compute what the model's HMAC (LEGACY: data||0x00), "
+            "AES-GCM, XChaCha20-Poly1305, AES-SIV, Ed25519, HKDF/HMAC-PRF compute for the entry's prefix type; histories on ONE deriver object "
+            "with ONE caller-owned salt buffer overwritten in place / re-sliced (other lengths, offsets) / restored to earlier salts (A,B,A) / "
+            "scribbled after the call, every call vs a fresh deriver on a copy of the salt, vs earlier calls and vs the model's material; "
+            "non-trivial = every line, distinct by line hash",
     "trusted_base": [KERNEL, TIE, PRIMS],
     "assumptions": ["'different salts or PRF keys give different keys' is HKDF injectivity — cryptographic, exercised empirically"],
     "manifest": {
@@ -646,6 +691,18 @@ PROPS["C20"] = {
             "scalar; ML-DSA / SLH-DSA signatures equal the reference deterministic signing with rnd = tape; RSA-PSS salt recovered from "
             "the signature = tape; ECDSA signature a function of the tape; key generation material = tape; manager ids = tape words "
             "with forced collisions redrawn; plus (real reader) repetition and per-byte chi-square screens as support; "
+            "section LARGE (large.go): the same discipline on the size grid k*2^16+d (65533..65537, 100000, 131071..131073, 200000, "
+            "thorough up to 2 MiB+3): key generation of every key type without upper key-size bound (HMAC, HMAC-PRF, HKDF-PRF, "
+            "JWT-HMAC) through all five generation routes and the raw generators (secretdata.NewBytesFromRand, "
+            "subtle/random.GetRandomBytes) - exactly `size` bytes drawn, key byte j = tape byte j (model `fields` over natural and "
+            "forced compactly written windows, `R histgen`), no constant run, replay; signing of large messages (ML-DSA / SLH-DSA "
+            "signature = reference Sign_internal with rnd = tape on `@len:seed` messages, RSA-PSS salt recovered, ECDSA, JWT "
+            "ES256/PS256/ML-DSA with claims sized to put the signing input just below / at 64 KiB; Ed25519, RSA-PKCS1, JWT-HMAC, MAC, "
+            "PRF, AES-SIV draw nothing) with the read pattern of small inputs, two signatures differ, replay, flipped tape byte; "
+            "AEAD / KMS-envelope / HPKE / ECIES / streaming encryption of large plaintexts and associated data; section IDHANDLE "
+            "(idhandle.go): managers built from handles holding RAW / no-prefix keys (direct, binary and JSON transport), the tape "
+            "replays ids of existing entries (RAW first) and the model's drawId is asked with the ids the KEYSET holds (the harness's "
+            "own record, not the manager's set); fixed-id duplicates refused; final ids pairwise distinct; "
             "non-trivial = every line, distinct by line hash",
     "trusted_base": [KERNEL, TIE, PRIMS, "H_rand: the operating system's random source behind crypto/rand.Reader is i.i.d. uniform — the "
                      "property's distributional clause is reduced to this hypothesis by the theorems; ML-KEM / X-Wing encapsulation "
@@ -688,6 +745,14 @@ PROPS["C19"] = {
             "fallback proto keys (type URL without parser: unknown, or served by stub key managers incl. "
             "PrivateKeyManagers) with every KeyMaterialType x prefix type through every handle constructor and every export path, where "
             "additionally every field of the caller's / the exported proto keyset is reassigned; "
+            "output stability under history: every byte-returning operation is driven through a script of calls on two objects of the "
+            "same source incl. a call with a >= 64 KiB input (1 MiB in the thorough tier); every returned slice is kept and must equal "
+            "its snapshot after each later call, must not share memory with later results, old results are then scrubbed through cap and "
+            "the newest result and later calls must be unaffected; the big and last results of the 24 most recent histories (other "
+            "objects and apis) are re-compared during every later history; constructors are additionally given inputs with 1, 2 and 8 "
+            "leading zero bytes (all inputs and each alone, every accepted encoding) and the caller's buffer is overwritten afterwards; "
+            "the regenerated slice facts follow bytes.Trim*/Split*/Cut*/Fields, slices.Clip, bytes.NewBuffer/NewReader, append(p[:k],…) "
+            "and report results that alias a pooled / global / receiver-held buffer (return-internal); "
             "Go's append/copy/Concat semantics are compared with the heap model; non-trivial = every line, "
             "distinct by line hash",
     "trusted_base": [KERNEL, TIE, "the regenerated slice facts come from a syntactic extractor (go/ast + go/types) over all non-test "
@@ -716,7 +781,7 @@ PROPS["C19"] = {
 PROPS["C18"] = {
     "lean": ["TinkVerif.Props.C18", "TinkVerif.Props.C18Class", "TinkVerif.Props.C18Facts"],
     "theorems": T("TinkVerif.Conc", "run_shared interleave_eq_sequential schedule_independent steps_commute scratchMac_not_readOnly "
-                  "scratchMac_schedule_matters") + T("TinkVerif.Gen.MutFacts", "facts_classified scan_coverage allowances_used"),
+                  "scratchMac_schedule_matters") + T("TinkVerif.Gen.MutFacts", "facts_classified scan_coverage allowances_used global_allowances_used field_allowances_used"),
     "harness": [{"name": "c18", "timeout": 3000, "race": True}],
     "reports": ["Reports/C18.lean"],
     "rule": "race-detector build: for every primitive class and key type in the pool, G goroutines × M calls on ONE shared primitive "
@@ -724,7 +789,14 @@ PROPS["C18"] = {
             "NewEncryptingWriter/NewDecryptingReader full streams, JWT sign/verify, DeriveKeyset) with every result compared to the "
             "sequential oracle computed beforehand; concurrent handle reads (Public, KeysetInfo, Primitives, Len/Entry, String), "
             "concurrent primitive construction from one handle, concurrent registry / protoserialization lookups and key parsing; "
-            "any race report, panic or result mismatch is a violation; non-trivial = every concurrent call whose result was compared, "
+            "any race report, panic or result mismatch is a violation; streaming error-path + retry histories (one call = a writer whose "
+            "sink fails once on its k-th Write, for the first, second, next-to-last and last sink write, with Close retried twice; a reader "
+            "whose source fails once; then two fresh writers and two fresh readers of the shared primitive used interleaved, each stream "
+            "must decrypt to its own plaintext) run concurrently like every other call; regenerated facts additionally list every "
+            "package-level variable of sync.Pool / sync.Map / mutex / atomic / channel type and every method call on a package-level "
+            "variable (classified per variable: a new pool or cache variable is unclassified), and every in-place rewrite of a map / "
+            "slice field together with the places where that field is handed out (classified one by one); "
+            "non-trivial = every concurrent call whose result was compared, "
             "distinct by (primitive, operation, input) hash",
     "trusted_base": [KERNEL, TIE, "the regenerated mutation facts come from a syntactic extractor (stores through receivers and their "
                      "local aliases, mutator calls on receiver-held stateful std types, stores to package variables); mutation through "
@@ -767,14 +839,43 @@ _G_STREAM = T("TinkVerif.GlueTie", "generateSegmentNonce_eq generateSegmentNonce
 _G_PREFIXKEYS = T("TinkVerif.GlueTie.PrefixKeys", "calculatePrefixBytes_eq Tink_eq Legacy_eq " + " ".join(
     pkg + "_calculateOutputPrefix" for pkg in "aesctrhmac aesgcm aesgcmsiv chacha20poly1305 xchacha20poly1305 aessiv ecies hpke aescmac hmac "
     "ecdsa ed25519 rsassapkcs1 rsassapss xaesgcm compositemldsa slhdsa mldsa protoserialization".split()))
+# whole-function ties (round 3b): the complete Go function is re-translated, so a statement inserted anywhere in it (a size-dependent
+# fast path, a special-value branch) changes the regenerated definition and breaks the theorem — or makes the translator refuse.
+_G_CMACFULL = T("TinkVerif.GlueTie", "compute_eq_computeK Compute_body_eq Compute_loop_inv Compute_loop_eq Compute_eq New_eq Compute_eq_spec "
+                "xorEndAndCompute_eq_K XE_body_eq XE_loop_inv XE_loop_eq XOREndAndCompute_eq")
+_G_CTR = T("TinkVerif.GlueTie", "aesctr_newCipher_eq aesctr_Encrypt_nil aesctr_Encrypt_dst aesctr_Encrypt_nil_length aesctr_Encrypt_small "
+           "aesctr_Decrypt_nil aesctr_Decrypt_dst aesctr_Decrypt_small aesctr_Decrypt_short")
+_G_ETM = T("TinkVerif.GlueTie", "etm_aadSizeInBits_eq etm_uint64ToByte_eq etm_macInput_eq etm_Encrypt_eq etm_Decrypt_eq subtle_eta_Encrypt_eq "
+           "subtle_eta_Decrypt_eq")
+_G_MACWRAP = T("TinkVerif.GlueTie", "macwrap_variant_constants aescmac_message_eq aescmac_message_other aescmac_ComputeMAC_eq aescmac_VerifyMAC_eq "
+               "hmac_message_eq hmac_message_other hmac_ComputeMAC_eq hmac_VerifyMAC_eq macsubtle_ComputeMAC_eq macsubtle_VerifyMAC_eq "
+               "macsubtle_ValidateCMACParams_eq")
+_G_PRF = T("TinkVerif.GlueTie", "prfsubtle_ComputePRF_eq prfsubtle_Validate_eq")
+_G_KWPFULL = T("TinkVerif.GlueTie", "kwp_Wrap_eq_fuel kwp_Wrap_eq kwp_invertW_eq kwp_Unwrap_eq kwp_Go_unwrap_wrap invertW_some Unwrap_of_invertW")
+_G_UNREADER = T("TinkVerif.GlueTie", "unreader_Read_eq unreader_unread_eq unreader_disable_eq unreader_unread_model unreader_disable_model "
+                "unreader_record unreader_reads_record unreader_replay unreader_roundtrip")
+_G_STREAMSEG = T("TinkVerif.GlueTie", "seg_generateSegmentNonce_eq seg_generateSegmentNonce_limit seg_Close_eq seg_Read_buffered seg_Read_eof "
+                 "seg_Read_fetch seg_Read_too_short seg_Read_eq seg_Write_step feed_append_fits feed_full feed_step write_loop seg_Write_eq "
+                 "seg_Write_no_progress")
+_G_RAND = T("TinkVerif.GlueTie", "rand_MustRand_eq rand_GetRandomBytes_eq rand_GetRandomUint32_eq rand_NewBytesFromRand_eq "
+            "rand_NewBytesFromRand_tape rand_GetRandomUint32_tape rand_GetRandomBytes_tape")
+_G_SIV = T("TinkVerif.GlueTie", "siv_zeroBlock_eq siv_multiplyByX_loop_inv siv_multiplyByX_eq siv_padXor_eq siv_s2v_eq siv_clearBits_eq "
+           "siv_ctrCrypt_eq siv_xorBE_length siv_Encrypt_long siv_Encrypt_eq siv_Decrypt_eq aessiv_full_Encrypt_eq aessiv_full_Decrypt_eq")
 for _p, _mods, _thms in (
-        ("C01", ["Framing", "Aead"], _G_FRAMING + _G_AEAD), ("C02", ["Framing", "Aead"], _G_FRAMING + _G_AEAD),
-        ("C04", ["Framing", "Cmac"], _G_FRAMING + _G_CMAC), ("C05", ["Framing", "PrefixKeys"], _G_FRAMING + _G_PREFIXKEYS),
-        ("C06", ["Hpke"], _G_HPKE), ("C07", ["Stream"], _G_STREAM), ("C08", ["Kwp", "Cmac"], _G_KWP + _G_CMAC),
-        ("C15", ["Cmac"], _G_CMAC)):
+        ("C01", ["Framing", "Aead", "Ctr", "Etm"], _G_FRAMING + _G_AEAD + _G_CTR + _G_ETM),
+        ("C02", ["Framing", "Aead", "Ctr", "Etm"], _G_FRAMING + _G_AEAD + _G_CTR + _G_ETM),
+        ("C04", ["Framing", "Cmac", "CmacFull", "MacWrap"], _G_FRAMING + _G_CMAC + _G_CMACFULL + _G_MACWRAP),
+        ("C05", ["Framing", "PrefixKeys", "Unreader"], _G_FRAMING + _G_PREFIXKEYS + _G_UNREADER),
+        ("C06", ["Hpke"], _G_HPKE), ("C07", ["Stream", "Unreader", "StreamSeg"], _G_STREAM + _G_UNREADER + _G_STREAMSEG),
+        ("C20", ["Rand"], _G_RAND),
+        ("C08", ["Kwp", "KwpFull", "Cmac", "CmacFull", "Siv"], _G_KWP + _G_KWPFULL + _G_CMAC + _G_CMACFULL + _G_SIV),
+        ("C14", ["Unreader"], _G_UNREADER),
+        ("C15", ["Cmac", "CmacFull", "Prf"], _G_CMAC + _G_CMACFULL + _G_PRF)):
     PROPS[_p]["lean"] = PROPS[_p]["lean"] + [_GT + m for m in _mods]
     PROPS[_p]["theorems"] = PROPS[_p]["theorems"] + [t for t in _thms if t not in PROPS[_p]["theorems"]]
     PROPS[_p]["manifest"]["text"] += (" REGENERATED glue (go/harness/gluetr → Gen/Glue*.lean) proved equal to the hand model on every run: "
-                                       + ", ".join(_mods) + " (output prefixes, length blocks, counter blocks, nonces, suite ids, doubling/padding as applicable).")
+                                       + ", ".join(_mods) + " (output prefixes, length blocks, counter blocks, nonces, suite ids, doubling/padding as applicable;"
+                                       " *Full / Ctr / Etm / MacWrap / Prf / Siv modules: WHOLE Go functions for every input length, block cipher / hash /"
+                                       " crypto/cipher stream as abstract parameters).")
 
 NOT_BUILT = {}
